@@ -79,3 +79,12 @@ func init() {
 		Assume: schedAssume,
 	}
 }
+
+func init() {
+	cfgs["C14"] = checkCfg{
+		Variant: "mapiter", Validate: false,
+		Budget: dur(170, 1700),
+		Rule:   "mapiter build: every range over a Go map in analyzer, compiler, value libraries, runtimes and optimizer is a choice point offering the rotations of the real iteration order (exactly the orders go1.23 can produce for maps with <= 8 entries); ALL executions of analyse+compile+run (VM and interpreter) deviating from the default order at <= 1 (quick) / <= 2 (thorough) dynamic ranges, for 14 programs (objects displayed/compared/serialised, any-objects, 2-3 modules with overlapping names, closures, unused variables, several type errors, singletons, types, imports); plus all schedules of main core vs. polling Wait within delay bound 2/3 for the same single-threaded programs; plus three rounds in one process; oracle: diagnostics (as a multiset), output and outcome identical to the default execution; states = executions, transitions = choice points passed",
+		Assume: schedExploreAssume,
+	}
+}
